@@ -220,7 +220,14 @@ def effect_signature(prog, body):
             return
         targets = [fieldpath(a) for a in call.args]
         targets = [t for t in targets if t]
-        sig.add(("call", call.path.replace("coap_message_0_3", "coap_message"), tuple(targets)))
+        pth = call.path.replace("coap_message_0_3", "coap_message")
+        # the effect on the message: crate functions called, and library calls applied to a field of self; how the values
+        # are walked afterwards (for loop / iterator adapters over an iterator value) is not part of the signature
+        if not targets and pth.startswith(("core::", "alloc::", "<core::", "<alloc::", "<&", "<T as ", "<I as ", "<F as ")):
+            return
+        if targets and (pth.endswith(("::iter_mut", "::iter", "::into_iter", "::values_mut", "::values"))):
+            pth = "iterate-mut" if "mut" in pth else "iterate"
+        sig.add(("call", pth, tuple(targets)))
     I.call_hooks.append(hook)
     I.K = 4
     if isinstance(a0, RefV):
